@@ -63,7 +63,7 @@ func stdUniverse() *universe {
 			{name: long, kind: 'm'},
 			// leaves used by the reference burst of profile throttle (never picked at random)
 			{name: "c.n", kind: 'c'}, {name: "m.n1", kind: 'm'}, {name: "m.n2", kind: 'm'},
-			{name: "m.l1", kind: 'm'}, {name: "m.l2", kind: 'm'}, {name: "m.l3", kind: 'm'}, {name: "m.l4", kind: 'm'}, {name: "m.l5", kind: 'm'}, {name: "m.l6", kind: 'm'}, {name: "m.l7", kind: 'm'},
+			{name: "m.l1", kind: 'm'}, {name: "m.l2", kind: 'm'}, {name: "m.l3", kind: 'm'}, {name: "m.l4", kind: 'm'}, {name: "m.l5", kind: 'm'}, {name: "m.l6", kind: 'm'}, {name: "m.l7", kind: 'm'}, {name: "m.l8", kind: 'm'},
 		},
 		norm: map[string]string{"q=a": "q=n1", "q=b": "q=n1", "q=c": "q=n2", "q=n1": "q=n1", "q=n2": "q=n2"},
 		init: map[string]string{
@@ -72,7 +72,7 @@ func stdUniverse() *universe {
 			"m.r2e": "k1=r:m.err,k2=p4", "q.m?q=n1": "k1=p1", "q.m?q=n2": "k1=p2,k2=r:m.b", "q.c?q=n1": "p1,p2",
 			"q.c?q=n2": "p3", "q.d?q=n1": "k1=p4,k2=r:m.b", "q.d?q=n2": "k1=p5", "cid.{cid}.m": "k1=p9", long: "k1=p1", "m.pq": "k1=p1,k2=r:m.b",
 			"c.n": "p1", "m.n1": "k1=r:m.l1,k2=p1", "m.n2": "k1=r:m.l2,k2=r:m.l3",
-			"m.l1": "k1=p1", "m.l2": "k1=p2", "m.l3": "k1=p3", "m.l4": "k1=p4", "m.l5": "k1=p5", "m.l6": "k1=p6", "m.l7": "k1=p7",
+			"m.l1": "k1=p1", "m.l2": "k1=p2", "m.l3": "k1=p3", "m.l4": "k1=p4", "m.l5": "k1=p5", "m.l6": "k1=p6", "m.l7": "k1=p7", "m.l8": "k1=p8",
 		},
 	}
 	u.rids = []string{"m.a", "m.b", "m.c", "m.self", "c.a", "c.b", "m.err", "m.r2e", "q.m?q=a", "q.m?q=b", "q.m?q=c",
@@ -818,7 +818,24 @@ func (g *gen) metaPct() int {
 // withMeta adds a meta object with a status to a JSON answer; statuses outside 300..599 must be
 // ignored by the gateway, the others end the HTTP request at once (C17).
 func (g *gen) withMeta(r *mockReq, label string, data []byte) (string, []byte) {
-	if data == nil || len(data) < 2 || data[len(data)-1] != '}' || !isHTTPReq(r) || !g.r.chance(g.metaPct(), 100) {
+	if data == nil || len(data) < 2 || data[len(data)-1] != '}' {
+		return label, data
+	}
+	if !isHTTPReq(r) {
+		// a service may attach a meta object to any answer; for a WebSocket request the gateway
+		// must ignore it entirely (the label, which is what the model reads, stays as it is)
+		if !g.r.chance(g.metaPct()/3+1, 100) {
+			return label, data
+		}
+		g.kinds["answer:meta-on-ws"]++
+		st := pick(g.r, []int{301, 307, 404, 500, 599, 200, 600, 0})
+		sep := ","
+		if strings.TrimSpace(string(data[:len(data)-1])) == "{" {
+			sep = ""
+		}
+		return label, append(append([]byte{}, data[:len(data)-1]...), []byte(fmt.Sprintf(`%s"meta":{"status":%d,"header":{"X-Ws":["1"]}}}`, sep, st))...)
+	}
+	if !g.r.chance(g.metaPct(), 100) {
 		return label, data
 	}
 	g.metaN++
@@ -1231,6 +1248,57 @@ func (g *gen) leaverRun() {
 	g.drain()
 }
 
+// resetBurstRun: one cached resource name, but more governed requests than the reset throttle
+// allows at once (an access re-validation per subscribing connection, then a re-fetch per query
+// variant): never more than `limit` of them may be outstanding (C19), and all must be issued.
+func (g *gen) resetBurstRun(limit int) {
+	w := g.w
+	for len(g.liveClients()) < limit+2 {
+		g.connect()
+	}
+	cs := g.liveClients()
+	if len(cs) < limit+2 || w.stall != "" {
+		return
+	}
+	g.kinds["reset-burst-run"]++
+	rid := "m.l8"
+	for _, c := range cs {
+		w.request(c, "subscribe."+rid, "")
+	}
+	g.drain()
+	w.publish("system.reset", `{"access":["m.l8"]}`)
+	seen := 0
+	waited := 0
+	for round := 0; round < 40; round++ {
+		var burst []*mockReq
+		for _, rq := range w.mq.outstanding() {
+			if rq.subject == "access."+rid {
+				burst = append(burst, rq)
+			}
+		}
+		if len(burst) > limit {
+			w.addViolation("C19", "reset-burst-exceeds-limit", fmt.Sprintf("%d access re-validations of one system reset are outstanding, the reset throttle is %d", len(burst), limit))
+		}
+		if len(burst) == 0 {
+			if seen < len(cs) && waited < 250 && w.stall == "" {
+				waited++
+				round--
+				time.Sleep(2 * time.Millisecond)
+				w.apply("# waiting for a throttled request", func() {})
+				continue
+			}
+			break
+		}
+		waited = 0
+		seen++
+		g.answerOne(burst[len(burst)-1], true) // newest first
+	}
+	g.drain()
+	if seen != len(cs) && w.stall == "" {
+		w.addViolation("C19", "revalidation-never-requested", fmt.Sprintf("only %d of %d subscribing connections were re-validated after the reset", seen, len(cs)))
+	}
+}
+
 // resetFailRun: a system reset re-fetches several resources under the reset throttle and some of
 // the re-fetches fail (timeout, error): every slot must be handed on, all resources are re-fetched.
 func (g *gen) resetFailRun() {
@@ -1405,6 +1473,9 @@ func runHistory(p profile, seed uint64, index int, keepSteps bool, wantSnap bool
 	}
 	if p.name == "churn" && r.chance(1, 6) {
 		g.deleteRun()
+	}
+	if p.name == "throttle" && cfg.resetThrottle > 0 && r.chance(1, 4) {
+		g.resetBurstRun(cfg.resetThrottle)
 	}
 	if p.name == "throttle" && cfg.resetThrottle > 0 && r.chance(1, 5) {
 		g.leaverRun()
